@@ -476,14 +476,73 @@ fn lex_case(w: &mut CaseWriter, sql: &str, kind: &str) {
 }
 
 // ------------------------------------------------------------------ Run cases
-fn run_cases(w: &mut CaseWriter, sut: &mut Sut, st: &Stmt, p: &[Vec<Val>; 2], only: Option<Path>, gkind: &str, stats: &mut Stats) {
-    let o = observe(sut, st, p, only);
+/// Rust-side mirror of coq/Corr/C13.v run_class, used only to label search results and the
+/// distribution of a run (the verdict uses the Coq definition)
+fn why(path: Path, st: &Stmt, p: &[Vec<Val>; 2], o: &Observed, got: &[Obs]) -> &'static str {
+    let d1 = got[0].text != o.refo[0].text;
+    let d2 = got[1].text != o.refo[1].text;
+    if !d1 && !d2 { return "same"; }
+    let all = || p[0].iter().chain(p[1].iter());
+    if all().any(|v| *v == Val::Int(i64::MIN)) { return "int_min"; }
+    let kind = st.kind();
+    let norm: String = st.pieces.iter().map(|x| match x { Piece::Lit(t) => t.chars().filter(|c| !matches!(c, ' ' | '\t' | '\r' | '\n')).collect::<String>(), _ => "?".to_string() }).collect();
+    if path == Path::Qry {
+        let sql = st.sql();
+        let ntok = |s: &str| match real_tokens(s) { Caught::Done(v) => v.len() as i64, _ => -1 };
+        for i in 0..2 {
+            if let (Some(sub), Caught::Done(toks)) = (&o.sub[i], real_tokens(&sql)) {
+                let mut want = 0i64;
+                let mut k = 0usize;
+                for t in &toks {
+                    match t.0 { 1 | 3 => { want += p[i].get(k).map(|v| ntok(&v.shown())).unwrap_or(0); k += 1; }
+                                2 => { want += p[i].get((t.1 as usize).saturating_sub(1)).map(|v| ntok(&v.shown())).unwrap_or(0); }
+                                _ => want += 1 }
+                }
+                if want != ntok(sub) { return "tokens_merge"; }
+            }
+        }
+        if all().any(|v| matches!(v, Val::Float(f) if f.is_finite() && Val::float_shown(*f).chars().all(|c| c.is_ascii_digit() || c == '-'))) { return "float_printed_as_integer"; }
+        return "unexplained";
+    }
+    let got_raw = got[0].text == o.raw[0].text && got[1].text == o.raw[1].text;
+    if (kind == "select" || kind == "delete") && st.has_ph() && got_raw { return "ignored"; }
+    let plus_before_ph = st.pieces.windows(2).any(|w| matches!((&w[0], &w[1]), (Piece::Lit(t), Piece::Anon | Piece::Pos(_)) if t.trim_end().ends_with('+')));
+    if kind == "update" && plus_before_ph { return "set_expression"; }
+    if kind == "update" {
+        let mut seen = false; let mut n = 0;
+        for x in &st.pieces { match x { Piece::Lit(t) => seen |= t.to_ascii_uppercase().contains("WHERE"), Piece::Anon => { if seen { n += 1; } } _ => {} } }
+        if n >= 2 { return "several_anonymous_in_where"; }
+    }
+    if kind == "update" {
+        // a blob bound to a placeholder of the WHERE clause
+        let mut seen = false; let mut k = 0usize;
+        for x in &st.pieces {
+            let isb = |i: usize| matches!(p[0].get(i), Some(Val::Blob(_))) || matches!(p[1].get(i), Some(Val::Blob(_)));
+            match x {
+                Piece::Lit(t) => seen |= t.to_ascii_uppercase().contains("WHERE"),
+                Piece::Anon => { if seen && isb(k) { return "blob_in_where"; } k += 1; }
+                Piece::Pos(n) => { if seen && isb((*n as usize).saturating_sub(1)) { return "blob_in_where"; } }
+            }
+        }
+    }
+    if kind == "delete" && norm == "DELETEFROMtWHEREid=?" && p[0] == p[1] && !d1 && d2 { return "delete_same_key_twice"; }
+    if path == Path::Pex && !d1 && d2 {
+        let in_order = { let mut k = 1u32; let mut ok = true; for x in &st.pieces { match x { Piece::Anon => k += 1, Piece::Pos(n) => { ok &= *n == k; k += 1; } _ => {} } } ok };
+        if kind == "insert" && !(norm == "INSERTINTOtVALUES(?,?,?,?,?,?)" && in_order) { return "second_execution_noncanonical_insert"; }
+        if kind == "insert" && o.refo[1].kind == 1 && got[1].kind == 0 { return "second_execution_insert_unvalidated"; }
+        if kind == "update" && norm.starts_with("UPDATEtSET") && norm.ends_with("WHEREid=?") && !norm.contains(|c| c == '+' || c == '-' || c == '(') { return "second_execution_pk_update"; }
+    }
+    "unexplained"
+}
+
+fn run_cases(w: &mut CaseWriter, sut: &mut Sut, st: &Stmt, p: &[Vec<Val>; 2], only: &[Path], gkind: &str, stats: &mut Stats) {
+    let o = observe(sut, st, p, if only.len() == 1 { Some(only[0]) } else { None });
     let kind = st.kind();
     let h = |x: &Option<String>| match x { Some(s) => format!("{}", fnv64(s.as_bytes())), None => "(-1)".to_string() };
     let mut paths: Vec<(Path, &Vec<Obs>)> = vec![];
-    if only.is_none() || only == Some(Path::Ewp) { paths.push((Path::Ewp, &o.ewp)); }
-    if only.is_none() || only == Some(Path::Pex) { paths.push((Path::Pex, &o.pex)); }
-    if let Some(q) = &o.qry { if only.is_none() || only == Some(Path::Qry) { paths.push((Path::Qry, q)); } }
+    if only.contains(&Path::Ewp) { paths.push((Path::Ewp, &o.ewp)); }
+    if only.contains(&Path::Pex) { paths.push((Path::Pex, &o.pex)); }
+    if let Some(q) = &o.qry { if only.contains(&Path::Qry) { paths.push((Path::Qry, q)); } }
     for (path, got) in paths {
         let qtx = match (&o.qtx, path) { (Some(q), Path::Qry) => q.clone(), _ => got.clone() };
         let term = format!("Run {} {} {} {} [{};{};{};{}] [{};{};{};{};{};{};{};{}] [{};{};{};{}] {}",
@@ -499,7 +558,8 @@ fn run_cases(w: &mut CaseWriter, sut: &mut Sut, st: &Stmt, p: &[Vec<Val>; 2], on
         let nontrivial = st.has_ph() && o.refo[0].kind == 0;
         w.push(term, replay, nontrivial, &format!("{}:{}:{}", gkind, kind, path.name()));
         stats.note(path, kind, agree, &o.refo, got);
-        if !agree && std::env::var("C13_VERBOSE").is_ok() {
+        *stats.m.entry(format!("class:{}", why(path, st, p, &o, got))).or_insert(0) += 1;
+        if !agree && std::env::var("C13_VERBOSE").is_ok() && why(path, st, p, &o, got) == "unexplained" {
             eprintln!("DIFF {} {} sql={:?}\n   p1={:?}\n   p2={:?}\n   ref={:?} / {:?}\n   got={:?} / {:?}\n   raw={:?} / {:?}\n   inl={:?}\n   sub={:?}", path.name(), kind, st.sql(), p[0], p[1],
                 o.refo[0].text, o.refo[1].text, got[0].text, got[1].text, o.raw[0].text, o.raw[1].text, o.inl[0], o.sub[0]);
         }
@@ -654,14 +714,14 @@ fn gen_select(rng: &mut Rng) -> Tpl {
 
 fn gen_insert(rng: &mut Rng) -> Tpl {
     let mut parts: Vec<Result<String, char>> = vec![];
-    match rng.below(8) {
-        0..=2 => {
+    match rng.below(12) {
+        0..=6 => {
             // the canonical shape
             parts.push(Ok("INSERT INTO t VALUES (".into()));
             for (i, (_, ty)) in COLS.iter().enumerate() { if i > 0 { parts.push(Ok(", ".into())); } parts.push(Err(*ty)); }
             parts.push(Ok(")".into()));
         }
-        3..=4 => {
+        7..=8 => {
             // literals mixed with placeholders
             parts.push(Ok("INSERT INTO t VALUES (".into()));
             let lits = ["7", "5", "'x?'", "X'0a'", "2.5", "TRUE"];
@@ -672,7 +732,7 @@ fn gen_insert(rng: &mut Rng) -> Tpl {
             }
             parts.push(Ok(")".into()));
         }
-        5..=6 => {
+        9..=10 => {
             // column list, possibly reordered
             let mut idx: Vec<usize> = vec![0];
             for i in 1..6 { if rng.chance(1, 2) { idx.push(i); } }
@@ -706,9 +766,10 @@ fn gen_update(rng: &mut Rng) -> Tpl {
         if COLS[i].1 == 'i' && rng.chance(1, 6) { parts.push(Ok(format!("{} = {} + ", COLS[i].0, COLS[i].0))); } else { parts.push(Ok(format!("{} = ", COLS[i].0))); }
         parts.push(Err(COLS[i].1));
     }
-    match rng.below(6) {
+    match rng.below(7) {
         0 => {}
-        1..=3 => { parts.push(Ok(" WHERE id = ".into())); parts.push(Err('i')); }
+        1..=2 => { parts.push(Ok(" WHERE id = ".into())); parts.push(Err('i')); }
+        3 => { parts.push(Ok(" WHERE ".into())); cond(rng, &mut parts); parts.push(Ok((*rng.pick(&[" AND ", " OR "])).into())); cond(rng, &mut parts); }
         _ => { parts.push(Ok(" WHERE ".into())); cond(rng, &mut parts); }
     }
     build(rng, parts)
@@ -717,9 +778,9 @@ fn gen_update(rng: &mut Rng) -> Tpl {
 fn gen_delete(rng: &mut Rng) -> Tpl {
     let mut parts: Vec<Result<String, char>> = vec![];
     parts.push(Ok("DELETE FROM t WHERE ".into()));
-    match rng.below(4) {
-        0..=1 => { parts.push(Ok("id = ".into())); parts.push(Err('i')); }
-        2 => cond(rng, &mut parts),
+    match rng.below(8) {
+        0..=5 => { parts.push(Ok("id = ".into())); parts.push(Err('i')); }
+        6 => cond(rng, &mut parts),
         _ => { cond(rng, &mut parts); parts.push(Ok(" AND ".into())); cond(rng, &mut parts); }
     }
     build(rng, parts)
@@ -806,7 +867,7 @@ fn gen(a: &Args) {
             if let Some(r) = l.strip_prefix("lex sql=") {
                 if let Ok(s) = String::from_utf8(unhex(r.split(" #").next().unwrap_or(r))) { lex_case(&mut w, &s, "replay"); }
             } else if l.starts_with("run ") {
-                if let Some((path, st, p)) = parse_run_line(&l) { run_cases(&mut w, &mut sut, &st, &p, Some(path), "replay", &mut stats); }
+                if let Some((path, st, p)) = parse_run_line(&l) { run_cases(&mut w, &mut sut, &st, &p, &[path], "replay", &mut stats); }
             }
         }
     } else {
@@ -823,16 +884,19 @@ fn gen(a: &Args) {
             lex_case(&mut w, &m, "lex:mutated_statement");
         }
         // ---- end to end
-        let (n_sel, n_dml) = if a.thorough() { (4_000, 1_500) } else { (260, 90) };
-        for _ in 0..n_sel {
+        // The execute paths ignore the values of every SELECT (finding 1): they are sampled on one
+        // SELECT in eight so that most cases stay outside the recorded classes.
+        let (n_sel, n_dml) = if a.thorough() { (6_000, 2_400) } else { (420, 150) };
+        for i in 0..n_sel {
             let tpl = gen_select(&mut rng);
             let p = [gen_params(&mut rng, &tpl, false, false), gen_params(&mut rng, &tpl, false, true)];
-            run_cases(&mut w, &mut sut, &tpl.st, &p, None, "e2e", &mut stats);
+            let paths: &[Path] = match i % 8 { 0 => &[Path::Qry, Path::Ewp], 4 => &[Path::Qry, Path::Pex], _ => &[Path::Qry] };
+            run_cases(&mut w, &mut sut, &tpl.st, &p, paths, "e2e", &mut stats);
         }
         for i in 0..n_dml {
             let (tpl, ins) = match i % 3 { 0 => (gen_insert(&mut rng), true), 1 => (gen_update(&mut rng), false), _ => (gen_delete(&mut rng), false) };
             let p = [gen_params(&mut rng, &tpl, ins, false), gen_params(&mut rng, &tpl, ins, true)];
-            run_cases(&mut w, &mut sut, &tpl.st, &p, None, "e2e", &mut stats);
+            run_cases(&mut w, &mut sut, &tpl.st, &p, &[Path::Ewp, Path::Pex], "e2e", &mut stats);
         }
     }
     let created = sut.created;
@@ -864,9 +928,9 @@ fn search(a: &Args) {
             tried += 1;
             let d1 = got[0].text != o.refo[0].text;
             let d2 = got[1].text != o.refo[1].text;
-            if (d1 || d2) && fails.len() < 200 {
-                fails.push(format!("run path={} kind={} st={} p1={} p2={} #differs={}", path.name(), kind, tpl.st.enc(), enc_vals(&p[0]), enc_vals(&p[1]),
-                    if d1 { "exec1" } else { "exec2" }));
+            if (d1 || d2) && fails.len() < 400 {
+                fails.push(format!("run path={} kind={} st={} p1={} p2={} #why={}", path.name(), kind, tpl.st.enc(), enc_vals(&p[0]), enc_vals(&p[1]),
+                    why(path, &tpl.st, &p, &o, got)));
             }
         }
     }
